@@ -213,6 +213,12 @@ def cmdSimCtx (c : SimCtx) (t : List String) : SimCtx × String :=
   | ["setpc", v] => match parseW v with
     | some v => ({ c with sim := { s with pc := v } }, "ok")
     | none => bad
+  | ["callsub", v] => match parseW v with
+    | some v =>
+      let (r, s') := callSubroutine v s
+      let r' : Except SimErr Unit := match r with | .ok _ => .ok () | .error (.err e) => .error e | .error .halt => .ok ()
+      ({ c with sim := s' }, resStr r')
+    | none => bad
   | "hostwrite" :: a :: d :: i :: cx =>
     match parseW a, parseW d, parseW i, parseCtx cx with
     | some a, some d, some i, some cx =>
